@@ -132,6 +132,20 @@ Round 10 additions.  validation: WeeklyCalendar's scalar `units_per_day` must it
 condition.  search override: a raise on the way to the delegation whose condition consults neither the capacity nor the
 direction is refuted ("raises without searching"); one that does is undecided.
 
+Round 11 additions.  op_table: a calendar class that overrides one of the five dunders must hand on to the inherited
+operator (`return super().__or__(other)`); an override that changes the state of an operand (`self.ops.append(other);
+return self`: the already derived `a | b` becomes `a | b | c`) or returns an operand itself is refuted, any other override
+is undecided.  validation: the start/end test may be written on the difference - `(start - end).total_seconds() > 0`,
+`start - end > timedelta(0)`, `(end - start).days < 0` are `start > end`; `(start - end).days > 0` / `>= 1` (whole days,
+rounded down) is refuted: a start after the end by less than 24 hours is accepted.  none_is_zero (C17 only): a resource
+constructor that keeps `calendar.clone()` is followed into the clone method; a copy built without a field that the
+class's get_available_units reads (WeeklyCalendar.clone: no start / end) is refuted, other derived objects are undecided,
+copy.copy / deepcopy are faithful.  fold: operands consumed through a generator function (`for u in _known_units(self.ops,
+date):`) are read with the generator's loop written in place (c17_util.inline_stream_generators, a re-parsed tree: line
+numbers of such sites are those of the rewritten text).  DirectCalendar lookup by `try: return T[k] / except KeyError:`
+is read as `if k in T`.  c17_util.cnf distributes `A or (B and C)`, so merged mode tests
+(`not (days is not None and (type(u) is float or type(u) is int))`) stay mode clauses.
+
 The decision procedures evaluate the (loop free) blocks over finite abstract domains (see c17_util): unit values by
 sign class {None, <0, 0, >0}, dates by their position against a validity interval, direction in {-1, +1}.
 
@@ -408,8 +422,57 @@ def _dunders(ctx):
                 items = [(r, [c for t, pol in conds for c in U.cnf(t, pol)], v) for conds, v in _ret_leaves(bx)]
                 _judge_promotion(ctx, op, f, items, f.params[1], r, d)
             op.site(f, r, f"{d}: promotion written in place")
+        _dunder_overrides(ctx, o)
     ctx.guarded(o, body)
     return table
+
+
+def _dunder_overrides(ctx, o):
+    """the operator table holds for every calendar: a calendar class of the package that defines one of the five
+    dunders itself (an override of IWorkCalendar's) must hand on to the inherited operator with the operand unchanged.
+    Recognised wrong shapes: the override changes the state of an operand (`self.ops.append(other); return self` - the
+    existing calendar `a | b` silently becomes `a | b | c`), or returns an operand itself instead of a new calendar."""
+    prog = ctx.prog
+    eff = Effects(prog, ctx.typer, ctx.cg)
+    for ci in prog.subclasses('IWorkCalendar'):
+        for d in OPS:
+            f = ci.methods.get(d)
+            if f is None or len(f.params) != 2 or _is_abstract_stub(f):
+                continue
+            me, other = f.params
+            sym = SYM.get(OPS[d], '|')
+            bad = False
+            for w in eff.direct_writes(f):
+                who = 'left' if w.root == 'self' else 'right' if w.root == 'param:' + other else None
+                if who is None:
+                    if w.root not in ('fresh',):
+                        o.undecided(f, w.node, w.node, f"{ci.name}.{d} writes state ({unmangle(w.field)}) of an object the rule cannot place")
+                        bad = True
+                    continue
+                o.refute(f, w.node, w.node, f"{ci.name}.{d} changes the state of its {who} operand (`{src(w.node)[:70]}`, field "
+                                            f"{unmangle(w.field)}): `x {sym} y` must build a new calendar whose value is the operator applied to "
+                                            f"both operands' values and leave x and y as they are - here a calendar that was already derived "
+                                            f"(`base = a {sym} b`) answers differently after `base {sym} c` was evaluated")
+                bad = True
+            if bad:
+                continue
+            ex = Expander(prog, f, ctx.typer, inline=False)
+            rets = [n for n in walk_no_nested(f.node) if isinstance(n, ast.Return)]
+            fine = bool(rets)
+            for r in rets:
+                for _, leaf in _ret_leaves(ex.expand(r.value) if r.value is not None else ast.Constant(value=None)):
+                    m = match(f"super().{d}($x)", leaf) or match(f"super({ci.name}, {me}).{d}($x)", leaf)
+                    m2 = match(f"IWorkCalendar.{d}($s, $x)", leaf)
+                    if (m and _name(m['x'], other)) or (m2 and _name(m2['s'], me) and _name(m2['x'], other)):
+                        continue
+                    fine = False
+                    if _name(leaf, me) or _name(leaf, other) or isinstance(leaf, ast.Constant):
+                        o.refute(f, r, r, f"{ci.name}.{d} returns `{src(leaf)}` instead of a new calendar built from [self, {other}]: for every date "
+                                          f"`x {sym} y` must yield the operator applied to both operands' values")
+                    else:
+                        o.undecided(f, r, r, f"{ci.name} overrides {d} and returns `{src(leaf)[:60]}`: an operator of its own, not followed")
+            if fine:
+                o.site(f, f.node, f"{ci.name}.{d} hands on to the inherited operator")
 
 
 def _module_consts(prog, module):
@@ -1831,6 +1894,48 @@ def _weekday_guard(ctx, o, f, gs, subject, what, keys: bool):
              f"({'keys of the units_per_day mapping' if keys else 'the days list'} are never range checked on the way to the day table)")
 
 
+def _difference_compare(c):
+    """a comparison of the difference of two values with zero, rewritten as the comparison of the two values:
+    `(x - y) OP timedelta(0)`, `(x - y).total_seconds() OP 0`, `(x - y).days < 0` / `>= 0` (days is the floor, so its
+    sign test against 0 from below is exact) -> ((x, OP, y), False).  `(x - y).days > 0` / `>= 1` (true only from a
+    whole day on) -> ((x, '>', y), True); `.days <= 0` / `< 1` -> ((x, '<=', y), True).  Anything else: (c, False)."""
+    l, op, r = c
+
+    def zero(x):
+        k = facts.const_num(x)
+        if k is not None:
+            return k == 0
+        m = match("timedelta($*a)", x) or match("datetime.timedelta($*a)", x)
+        if m is not None and isinstance(x, ast.Call):
+            return all(facts.const_num(v) == 0 for v in list(x.args) + [k_.value for k_ in x.keywords])
+        return False
+    one = facts.const_num(r) == 1 and not isinstance(getattr(r, 'value', None), bool)
+    if zero(l) and not zero(r):
+        l, op, r = r, U._FLIP[op], l
+        one = False
+    m = match("($x - $y).days", l)
+    if m and (zero(r) or one):
+        if one:
+            if op == '>=':
+                return (m['x'], '>', m['y']), True
+            if op == '<':
+                return (m['x'], '<=', m['y']), True
+            return c, False
+        if op in ('<', '>='):
+            return (m['x'], op, m['y']), False
+        if op in ('>', '<='):
+            return (m['x'], op, m['y']), True
+        return c, False
+    if not zero(r):
+        return c, False
+    m = match("($x - $y).total_seconds()", l)
+    if m is None and not isinstance(r, ast.Constant):
+        m = match("$x - $y", l)                      # a timedelta against timedelta(0)
+    if m:
+        return (m['x'], op, m['y']), False
+    return c, False
+
+
 def _start_end_guard(ctx, o, f, gs, cls):
     hit = False
     for g in gs:
@@ -1839,12 +1944,19 @@ def _start_end_guard(ctx, o, f, gs, cls):
                 c = U.compare_atom(a, p)
                 if c is None:
                     continue
+                c, whole_days = _difference_compare(c)
                 l, op, r = c
                 if _name(l, 'end') and _name(r, 'start'):
                     l, op, r = r, U._FLIP[op], l
                 if not (_name(l, 'start') and _name(r, 'end')):
                     continue
                 hit = True
+                if whole_days and op == '>':
+                    # `(start - end).days > 0`: timedelta.days is the difference rounded *down* to whole days
+                    o.refute(g.func, g.raise_node, a, f"{cls}: the check compares the whole days of the difference (`{src(a)[:60]}`), which rejects only "
+                                                      f"a start that lies at least 24 hours after the end: a start after the end by less than a "
+                                                      f"day is accepted, expected `start > end` -> RuntimeError")
+                    return
                 if len(cl) > 1 and any(not (x is a) and not U.is_mode_atom(x, q) for x, q in cl):
                     o.undecided(g.func, g.raise_node, g.raise_node, f"{cls}: start/end test is part of a larger disjunction")
                     return
@@ -3014,6 +3126,58 @@ def _resource_defs(prog, name):
     return out
 
 
+def _copy_call(g):
+    """the constructor call a copy method returns (`return K(..)`), else None"""
+    rets = [n for n in walk_no_nested(g.node) if isinstance(n, ast.Return)]
+    if len(rets) == 1 and isinstance(rets[0].value, ast.Call) and isinstance(rets[0].value.func, ast.Name):
+        return rets[0].value
+    return None
+
+
+def _copy_loses(ctx, g):
+    """g = a method of calendar class K of the shape `return K(args)`: the fields that K.get_available_units reads and
+    that the copy does not take over from self (every constructor parameter that feeds the field is absent from the
+    call or bound to a constant).  [] when every such field is handed over; None when g is not in that shape."""
+    prog = ctx.prog
+    call = _copy_call(g)
+    if call is None or not g.cls or call.func.id != g.cls or not g.params:
+        return None
+    if any(isinstance(a, ast.Starred) for a in call.args) or any(k.arg is None for k in call.keywords):
+        return None
+    init = prog.find_method(g.cls, '__init__')
+    q = prog.find_method(g.cls, 'get_available_units')
+    if init is None or q is None or not q.params or not init.params:
+        return None
+    read = []
+    for n in walk_no_nested(q.node):
+        if isinstance(n, ast.Attribute) and isinstance(n.ctx, ast.Load) and _name(n.value, q.params[0]) and n.attr not in read \
+                and facts.attr_stores(init, n.attr):
+            read.append(n.attr)
+    params = list(init.params)[1:]
+    args = dict(zip(params, facts.bound_args(call, init)))
+    lost = []
+    exi = Expander(prog, init, ctx.typer)
+    cfgi = cfg_of(init)
+    for fld in read:
+        feeding = set()
+        vals = [(st, val) for st, tgt, val in facts.attr_stores(init, fld) if val is not None]
+        for n in walk_no_nested(init.node):             # entries of a table field: `self.F[k] = v`
+            if isinstance(n, ast.Assign) and len(n.targets) == 1 and isinstance(n.targets[0], ast.Subscript) and \
+                    isinstance(n.targets[0].value, ast.Attribute) and n.targets[0].value.attr == fld and _name(n.targets[0].value.value, init.params[0]):
+                vals.append((n, n.value))
+        for st, val in vals:
+            try:
+                val = exi.expand(val, cfgi.node_of(st))
+            except Exception:
+                pass
+            feeding |= {n.id for n in ast.walk(val) if isinstance(n, ast.Name) and n.id in params}
+        if not feeding:
+            return None
+        if all(args.get(p_) is None or isinstance(args.get(p_), ast.Constant) for p_ in feeding):
+            lost.append(fld)
+    return lost
+
+
 def _none_zero(ctx):
     prog = ctx.prog
     o = ctx.ob('none_is_zero', 'R8', "Resource.get_available_units returns 0 where the calendar has no information, the calendar "
@@ -3024,6 +3188,54 @@ def _none_zero(ctx):
         for f in _resource_defs(prog, 'get_available_units'):
             one(o, f)
         truthiness(o)
+        if str(getattr(o, 'id', '')).startswith('C17'):
+            # (only under C17: the scheduler properties that share this check take the resource's calendar as it is)
+            derived_calendar(o)
+
+    def derived_calendar(o):
+        """the resource's calendar is the calendar it was given: a constructor that keeps `calendar.clone()` (or
+        another object derived from the argument) answers from that object.  A clone method that builds the copy
+        without handing over every field the class's get_available_units reads (WeeklyCalendar.clone: only the day
+        table, not start / end) makes the resource answer with capacity outside the given calendar's validity."""
+        for ci in [prog.cls('IResource')] + prog.subclasses('IResource'):
+            init = ci.methods.get('__init__')
+            if init is None or len(init.params) < 2:
+                continue
+            exi = Expander(prog, init, ctx.typer)
+            cfgi = cfg_of(init)
+            for st, tgt, val in facts.attr_stores(init, 'calendar'):
+                if val is None or not _name(tgt.value, init.params[0]):
+                    continue
+                for _, leaf in _ret_leaves(exi.expand(val, cfgi.node_of(st))):
+                    if not isinstance(leaf, ast.Call):
+                        continue
+                    ps = [n.id for n in ast.walk(leaf) if isinstance(n, ast.Name) and n.id in init.params[1:]]
+                    if not ps:
+                        continue
+                    if match("copy.copy($x)", leaf) or match("copy.deepcopy($x)", leaf) or match("deepcopy($x)", leaf):
+                        continue            # a faithful copy answers like the original
+                    m = match("$x.$m()", leaf)
+                    if not (m and isinstance(m['x'], ast.Name) and m['x'].id in init.params[1:]):
+                        o.undecided(init, st, leaf, f"{ci.name} keeps `{src(leaf)[:60]}` as its calendar: an object derived from the "
+                                                    f"argument, not followed")
+                        continue
+                    meth = unmangle(leaf.func.attr)
+                    defs = [c.methods[meth] for c in prog.subclasses('IWorkCalendar') if meth in c.methods]
+                    if not defs:
+                        o.undecided(init, st, leaf, f"{ci.name} keeps `{src(leaf)[:60]}` as its calendar: no calendar class of the "
+                                                    f"package defines {meth}")
+                        continue
+                    for g in defs:
+                        lost = _copy_loses(ctx, g)
+                        if lost is None:
+                            o.undecided(init, st, leaf, f"{ci.name} keeps `{src(leaf)[:60]}` as its calendar; {g.cls}.{meth} is not "
+                                                        f"`return {g.cls}(<fields of self>)`: not followed")
+                        elif lost:
+                            o.refute(init, st, leaf, f"{ci.name} answers from `{src(leaf)[:60]}` instead of the calendar it was given, and "
+                                                     f"{g.cls}.{meth} builds the copy without {', '.join(unmangle(x).lstrip('_') for x in lost)} "
+                                                     f"(`{src(_copy_call(g))[:70]}`): the copy does not answer like the given calendar "
+                                                     f"(outside its validity the resource reports capacity instead of 0, and the availability "
+                                                     f"search returns dates there)")
 
     def stale_alias(o, f):
         """the answer is taken through an attribute that __init__ derived from the calendar argument (`self._cal =
